@@ -42,6 +42,9 @@ pub trait VStream: VRead {
     /// Seek::seek
     fn seek(&mut self, to: std::io::SeekFrom) -> (r: std::io::Result<u64>)
         requires old(self).wf(),
+            // argument domain (DESIGN.md C08): a RELATIVE offset is an API argument, never a number taken from the archive; the
+            // resulting position must fit i64 (implementations compute `position + offset` in i64)
+            to matches std::io::SeekFrom::Current(d) ==> (d != 0 ==> old(self).pos() + d <= i64::MAX),
         ensures
             //@label - vstream.seek.wf_preserved
             final(self).wf() && final(self).data() == old(self).data(),
